@@ -30,6 +30,9 @@ CLAIMED = {
  "C08": ("Hypothesis property-based testing; oracle = reference model derived from the declared field NAMES (marker values in stride patterns), packed registers unpacked by byte, loop-count relations between kernel registers and stream step counts",
          "Generated accelerator instances (alu with generated streamer configurations, gemmx default and from_config geometries, xdma extension subsets, hwpe) and streaming regions with pairwise distinct marker bounds/strides are run through the real convert-linalg-to-accfg pass with the instance registered; the emitted setup must verify, name exactly the declared fields, and every named field must hold the value with that meaning. Exploration level.",
          TRUST + " Register meanings come from field names and code comments (no RTL offline). gemmx patterns are generated in the 5-pattern output-stationary shape set_stride_patterns produces. Known findings (hwpe name swap expected by upstream's lit test, xdma enabled_chan without mask option, rescale-only per-channel values) are classified by narrow signatures.", "4/C08"),
+ "C09": ("Hypothesis property-based testing + systematic sweep of 2-D shapes (thorough); oracle = invariants on the result type of every inserted snax.layout_cast: coverage (product of tile bounds per dim = shape), injectivity (all indices through the C10 reference address function, numpy unique), padding only enlarges strides, explicitly laid-out operands untouched",
+         "dart.schedule ops obtained from generated dart.operation ops through the real dart-scheduler, directly generated schedules (any dimension order, tilings, reduction/broadcast dims, bounds not dividing the shape), and cases with operands that already carry a TSL layout are run through set-memory-layout (tiled and untiled) for all streamer accelerators and element widths 8..64. Thorough adds all 2-D shapes up to 40 x 40 per width and accelerator. Exploration level with a systematic sub-space.",
+         TRUST + " Reference address function from vlib/gen_tsl.py (C10). Scheduler refusals are rejections.", "4/C09"),
  "C10": ("Hypothesis property-based testing + exhaustive enumeration of small layouts; oracle = one reference address function written from the TSL docstrings, against which every view (affine map, all_values/overlap/dense, bound/step ops interpreted, text round trip, from_strides/canonicalize, common contiguous block, subview pointer arithmetic) is compared",
          "Seven sub-properties, each comparing one view of a tiled-strided layout with the single reference addr(idx) on generated layouts (rank <= 4, depth <= 3, dynamic entries, offsets) and on the complete small-layout grid. Exploration level with an exhaustive sub-space.",
          TRUST + " The reference address function and the dynamic-step rule follow snaxc/ir/tsl/README.md and the class docstrings.", "4/C10"),
